@@ -105,6 +105,11 @@ fn cmd_hist(a: &Args) -> Ev {
             "C11" | "C12" => g.bias_view = true,
             "C10" | "C16" => g.bias_bulk = true,
             "C18" => g.bias_entry = true,
+            "C15" => {
+                // panicking user callbacks must not leave structural leftovers either
+                g.allow_inject = hi % 2 == 1;
+                g.bias_entry = true;
+            }
             "C20" => {
                 g.allow_inject = true;
                 g.bias_entry = true;
@@ -170,6 +175,8 @@ fn cmd_pairs(a: &Args) -> Ev {
         rj["cmd"] = json!("pairs");
         rj["only_run"] = json!(ri);
         let mut pr = pairs::PairRun::new(world::new_world(&kind), &prop, g, rj);
+        pr.evolve_max = a.u("evolve", 25) as usize;
+        pr.fast = a.u("fast", 0) == 1;
         // several rounds on the same evolving operands
         for _ in 0..8 {
             if done >= rounds || budget.expired() {
@@ -285,6 +292,8 @@ fn cmd_pool(a: &Args) -> Ev {
 fn main() {
     install_panic_hook();
     let (cmd, a) = Args::parse();
+    // thread workloads burn CPU on several threads at once; everything else is single-threaded
+    start_hang_detector(a.u("hang_cpu_s", if cmd == "threads" { 120 } else { 20 }), a.json());
     let ev = match cmd.as_str() {
         "hist" => cmd_hist(&a),
         "pool" => cmd_pool(&a),
